@@ -274,7 +274,7 @@ func main() {
 	sg := &q1q.SGen{R: r, IDs: ids}
 
 	// ---- abstract rewrites ----
-	nAbs := f.N(5000, 60000)
+	nAbs := f.N(5000, 120000)
 	ops := []string{"ec", "fl", "simp", "simp", "exp", "strip", "ss", "ss", "ss"}
 	for i := 0; i < nAbs; i++ {
 		op := ops[i%len(ops)]
@@ -291,7 +291,7 @@ func main() {
 	}
 
 	// ---- real shards ----
-	nShards := f.N(40, 300)
+	nShards := f.N(40, 500)
 	for i := 0; i < nShards; i++ {
 		names := append([]string(nil), q1q.RepoNames...)
 		gen.Shuffle(r, names)
